@@ -786,12 +786,13 @@ class DAG(BaseDAG[P, RVDAG]):
                     to_subdag_id(id_): UsageExecNode(to_subdag_id(uxn.id), uxn.key)
                     for id_, uxn in exec_node.kwargs.items()
                 }
-                if not exec_node.setup:
-                    if exec_node.active is not None:
-                        values["active"] = UsageExecNode(
-                            to_subdag_id(exec_node.active.id), exec_node.active.key
-                        )
+                # the ExecNode's own activation is a reference like its arguments (setup ExecNodes included)
+                if exec_node.active is not None:
+                    values["active"] = UsageExecNode(
+                        to_subdag_id(exec_node.active.id), exec_node.active.key
+                    )
 
+                if not exec_node.setup:
                     if ARG_NAME_ACTIVATE in kwargs:
                         if exec_node.active is not None:
                             raise RuntimeError(
